@@ -10,6 +10,7 @@ import LarkVerif.LRComplete
 import LarkVerif.LRClosedCheck
 import LarkVerif.LALRTable
 import LarkVerif.Shape
+import LarkVerif.Positions
 import LarkVerif.Scan
 import LarkVerif.Transform
 import LarkVerif.TransformEmbed
@@ -332,6 +333,27 @@ def runShape (j : Json) : Except String Json := do
     | .node _ r kids rest => (r.markers.count false == kids.len) && wf kids && wf rest
   pure (Json.mkObj [("built", Json.arr (built.map (fun x => valJ x.2)).toArray), ("spec", Json.arr (spec.map (fun x => valJ x.2)).toArray), ("wf", Json.bool (wf d))])
 
+open ShapeProto in
+/-- tokens are referenced by index in the forest; `positions` replaces the index by the token's `[start_pos, end_pos)` -/
+def withSpans (sp : Array (Nat × Nat)) : D → D
+  | .nil => .nil
+  | .leaf s ty _ rest => let p := sp.getD ty (0, 0); .leaf s p.1 p.2 (withSpans sp rest)
+  | .node s r kids rest => .node s r (withSpans sp kids) (withSpans sp rest)
+
+def spanJ : Option (Nat × Nat) → Json
+  | none => Json.null
+  | some (a, b) => natArr [a, b]
+
+open ShapeProto PosProto in
+def runPositions (j : Json) : Except String Json := do
+  let d0 ← dOf (← getArr j "forest")
+  let sp ← (← getArr j "spans").mapM spanOf
+  let d := withSpans sp.toArray d0
+  let vs := evalP d
+  let ms := vs.map (fun x => Json.arr ((metas x.2).map (fun (m, o) => Json.arr #[spanJ m, spanJ o])).toArray)
+  pure (Json.mkObj [("metas", Json.arr ms.toArray), ("clean", Json.bool (cleanB d)),
+                    ("outer", Json.arr (vs.map (fun x => spanJ (cand x.2))).toArray), ("spans", Json.arr ((spans d).map spanJ).toArray)])
+
 -- C16: callbacks are interpreted freely (term algebra): a callback application is marked by adding `cbMark` to the label
 def cbMark : Nat := 1000000
 
@@ -491,6 +513,7 @@ def handle (j : Json) : Except String Json := do
   | "earley" => runEarley j
   | "lr_table" => runLrTable j
   | "shape" => runShape j
+  | "positions" => runPositions j
   | "embed" => runEmbed j
   | "cache" => runCache j
   | "recons_join" =>
